@@ -73,6 +73,7 @@ type FuncCtx struct {
 	iters    map[ssa.Value]rangeIter
 	globalIdx, funcIdx, inlineSeq, pureSeq, qcount, havocSeq int
 	heapKeys map[string]HeapKey
+	localObjs []localObj
 	addingAxioms bool
 	axiomDone map[int]bool
 	rootFn   *ssa.Function
